@@ -297,6 +297,7 @@ main(int argc, char **argv)
 
       /* determine non-gap RF location of each residue in predicted alignment */
       for(i = 0; i < ta->nseq; i++) { 
+	if(do_post && ta->pp[i] == NULL) esl_fatal("-p requires \"#=GR PP\" annotation for every sequence in the test alignment, but seq %d of alignment %d has none", (i+1), nali);
 	uapos = rfpos = 0;
 	for(apos = 1; apos <= ta->alen; apos++) { 
 	  is_rfpos = FALSE;
